@@ -52,7 +52,8 @@ def write(prop, tier, seed, level, coverage, wall_s, violations=0,
         'violations': int(violations),
     }
     validate(doc)
-    path = os.path.join(VERIF, 'evidence', '%s.json' % prop)
+    path = os.path.join(os.environ.get('VERIF_OUT', VERIF), 'evidence',
+                        '%s.json' % prop)
     os.makedirs(os.path.dirname(path), exist_ok=True)
     tmp = path + '.tmp'
     with open(tmp, 'w') as fp:
